@@ -204,6 +204,19 @@ class Function:
             return a.idx <= b.idx
         return self.bdominates(a.block, b.block)
 
+    def dom_or_loop(self, a, b):
+        """a dominates b, or a sits in a loop (e.g. `for each level`) whose header dominates b while b is outside
+        that loop: a is executed for every iteration the loop makes before control can reach b"""
+        if self.dominates(a, b):
+            return True
+        for h, body in self.loops.items():
+            if a.block in body and b.block not in body and self.bdominates(h, b.block):
+                # a must be executed on every iteration: a's block dominates the latches
+                latches = [x for x in body if h in self.succ[x]]
+                if all(self.bdominates(a.block, l) for l in latches):
+                    return True
+        return False
+
     # ---------------- loops (natural loops via back edges)
     @property
     def loops(self):
